@@ -55,7 +55,7 @@ class C17(Prop):
         n = 1200 if tier == "quick" else 30000
         for _ in range(n):
             rank = rng.choice([1, 2, 2, 3, 4])
-            arr = gen.rand_array(rng, rank=rank, maxn=4, minn=1)
+            arr = gen.dtype_variants(rng, gen.rand_array(rng, rank=rank, maxn=4, minn=1))
             for ax in arr["axes"]:
                 if rng.random() < 0.3:
                     ax["attrs_py"] = {"units": "u" + ax["name"]}
@@ -71,7 +71,7 @@ class C17(Prop):
                 arr["vkind"] = rng.choice(["f", "i"])
                 how = rng.choice(["plain", "plain", "key_neg", "dict"])
                 if how == "key_neg" and arr["axes"][d]["kind"] == "O":
-                    how = "dict"
+                    how = rng.choice(["dict", "key_rev"])       # key_rev: each string label read backwards
                 c = {"op": "sort_axis", "array": arr, "axis": axk, "how": how}
                 if how == "dict":
                     order = list(range(len(L)))
@@ -127,7 +127,9 @@ class C17(Prop):
                     if c["how"] == "plain":
                         r = a.sort_axis(axis=ax)
                     elif c["how"] == "key_neg":
-                        r = a.sort_axis(axis=ax, key=lambda x: -x)
+                        r = a.sort_axis(axis=ax, key=lambda x: -float(x))
+                    elif c["how"] == "key_rev":
+                        r = a.sort_axis(axis=ax, key=lambda s: s[::-1])
                     else:
                         pos = a.dims.index(ax) if isinstance(ax, str) else ax
                         labs = a.axes[pos].values.tolist()
@@ -177,6 +179,8 @@ class C17(Prop):
             L = c["array"]["axes"][d]["labels"]
             if c["how"] == "key_neg":
                 keys = [-Fraction(l[1], l[2]) for l in L]
+            elif c["how"] == "key_rev":
+                keys = [l[1][::-1] for l in L]
             else:
                 keys = c["ranks"]
             order = sorted(range(len(L)), key=lambda i: keys[i])
@@ -222,6 +226,8 @@ class C17(Prop):
                         if c["how"] == "plain" and [lab_key(x) for x in ol] != sorted(map(lab_key, L)):
                             prop_bad.append("axes.labels:ascending")
                         if c["how"] == "key_neg" and [lab_key(x) for x in ol] != sorted(map(lab_key, L), reverse=True):
+                            prop_bad.append("axes.labels:key_order")
+                        if c["how"] == "key_rev" and [x[1][::-1] for x in ol] != sorted(l[1][::-1] for l in L):
                             prop_bad.append("axes.labels:key_order")
                         if c["how"] == "dict":
                             rk = dict(zip(map(lab_key, L), c["ranks"]))
